@@ -29,7 +29,9 @@ var cpuData2 = []uint16{0x8001, 0x7FFE}
 
 func regPresets() cpuDim {
 	type rs struct{ c, x, y, s, d uint16 }
-	p := []rs{{0x1234, 0x0010, 0x0020, 0x01FF, 0x0000}, {0xFFFF, 0xFFFF, 0xFFFF, 0xFFFF, 0xFFFF}, {0x0000, 0x0000, 0x0000, 0x0100, 0x00FF}, {0x80FF, 0x00FF, 0x0100, 0x0000, 0x0100}}
+	p := []rs{{0x1234, 0x0010, 0x0020, 0x01FF, 0x0000}, {0xFFFF, 0xFFFF, 0xFFFF, 0xFFFF, 0xFFFF}, {0x0000, 0x0000, 0x0000, 0x0100, 0x00FF}, {0x80FF, 0x00FF, 0x0100, 0x0000, 0x0100},
+		// stack pointers from which a multi-byte push or pull wraps part-way (bank 0 edge, page 1 edge)
+		{0x00FF, 0x0001, 0x00FE, 0x0002, 0x0001}, {0x7F80, 0x0080, 0x007F, 0x0101, 0xFF00}}
 	return cpuDim{"regs", len(p), func(c *cpuCase, i int) { c.S.C, c.S.X, c.S.Y, c.S.S, c.S.D = p[i].c, p[i].x, p[i].y, p[i].s, p[i].d }}
 }
 
